@@ -231,8 +231,9 @@ def worker_main(pid, shard, nshards, seed, tier, outpath):
             result['rule_checks'] = dict(ctx.rule_checks)
         reach.stop()
         result['reach'] = dict(reach.counts)
-        if hasattr(mod, 'monitor_counts'):
-            result['monitors'] = mod.monitor_counts()
+        from . import monitors
+        result['monitors'] = dict(monitors.COUNTS)
+        result['monitors_unavailable'] = dict(monitors.UNAVAILABLE)
     except shim.Inconclusive as err:
         result['inconclusive'] = str(err)
     except Exception:  # pylint: disable=broad-except
